@@ -9,6 +9,7 @@ import Mathlib.Tactic.Linarith
 import Mathlib.Tactic.Ring
 import Mathlib.Tactic.FieldSimp
 import Mathlib.Tactic.SplitIfs
+import RQ.Lemmas.WorldL
 
 namespace RQ.Props.C12
 open RQ.Q RQ.Props
@@ -134,5 +135,37 @@ theorem conversion_jumps_present (a : Acct) (pred succ : Nat) (hne : pred ≠ su
 example : value ((⟨5000, 0, 0, [], 0, 0, 0, [⟨1, ⟨false, 1, 0, 1, true, 100⟩, ⟨true, 1000, 1000, 1000, 10.5, 0, 0, 11.75, 0, none⟩, Pos.empty false 11.75⟩]⟩ : Acct).convert
     1 2 ⟨false, 1, 0, 1, true, 100⟩ 5 2 2000 false) = 5000 + 11750 + 1250 := by
   decide +kernel
+
+
+/-! ### whole accounts and the composed world (`RQ/Model/World.lean`) -/
+
+/-- **the morning step of a WHOLE account is value-neutral** (any number of holdings): dividends move from the price into the receivable at book
+closure and from the receivable into cash on the payable date, due deposits move from "in transit" into cash, empty holdings are purged — the
+account's total value is unchanged.  `QuietMorning` excludes what changes value by design (a split's whole-share rounding, a reinvestment's fee,
+interest on liabilities) and the overlapping-dividend case of the recorded finding F21 (a new book closure while an earlier dividend is still
+receivable overwrites it: `onBeforeTrading_overwrites_receivable` is the kernel-checked witness, 1007 → 1000). -/
+theorem account_morning_value_neutral (a : Acct) (i : BTInput) (hq : RQ.Lemmas.WorldL.QuietMorning a i) :
+    (a.onBeforeTrading i).totalValue = a.totalValue :=
+  RQ.Lemmas.WorldL.onBeforeTrading_value_neutral a i hq
+
+/-- **the settlement step of a WHOLE account is value-neutral**: futures profit moves from the positions into cash and the carrying price is rebased,
+expiring contracts are closed at the mark, delisted stock is paid out at the mark.  `QuietEvening` excludes a separate settlement price (a price move),
+forfeited holdings, the management fee and forced liquidation. -/
+theorem account_settlement_value_neutral (a : Acct) (i : STInput) (hq : RQ.Lemmas.WorldL.QuietEvening a i) :
+    (a.onSettlement i).totalValue = a.totalValue :=
+  RQ.Lemmas.WorldL.onSettlement_value_neutral a i hq
+
+/-- … and in the composed world the SETTLEMENT step leaves the total value of every such account unchanged -/
+theorem world_settlement_value_neutral (w : World) (k : Nat) (a : Acct) (hk : w.pf.accounts[k]? = some a)
+    (hq : RQ.Lemmas.WorldL.QuietEvening a w.stInput) :
+    ∃ a', (w.step .settlement).1.pf.accounts[k]? = some a' ∧ a'.totalValue = a.totalValue :=
+  RQ.Lemmas.WorldL.world_settlement_value_neutral w k a hk hq
+
+/-- the overlapping-dividend witness behind the extra hypothesis (finding F21) -/
+theorem account_morning_overlapping_dividends_lose_value :
+    ∃ (a : Acct) (i : BTInput), i.reinvest = false ∧ a.liabilities = 0 ∧
+      (∀ h ∈ a.holdings, h.cfg.isFuture = false → (i.corp h.ins).split = none) ∧
+      a.totalValue = 1007 ∧ (a.onBeforeTrading i).totalValue = 1000 :=
+  RQ.Lemmas.WorldL.onBeforeTrading_overwrites_receivable
 
 end RQ.Props.C12
